@@ -166,7 +166,11 @@ def run_property(prop, tier, seed, replay_file=None):
         if len(behs) > cap:
             rnd = random.Random(seed)
             behs = rnd.sample(behs, cap)
-        nsh = opts.get("shuffle", 0)
+        # by default two random schedules for each of (up to) 150 programs of an instance in which collector
+        # cycles interleave with calls: the model prints one behaviour per terminal state, which keeps one
+        # schedule of the many that end in the same state (DESIGN.md section 14)
+        interleaves = c.get("MaxCycles", 0) > 0 or len(c.get("threads", [1])) > 1 or c.get("MaxFlush", 0) > 0
+        nsh = opts.get("shuffle", (2 if tier == "quick" else 8) if (emit == "terminal" and interleaves and c.get("ready", True) and c.get("enabled", True)) else 0)
         if nsh:
             # the same programs under random schedules over the stops the real code makes
             rnd = random.Random(seed + 7)
